@@ -8,7 +8,9 @@ What the converter computes itself (independently of the implementation under te
   * the ID-digest table iri -> digest of the hasher the chain ran with: hashlib.blake2b(digest_size=8)
     for "prod", a re-implementation of chain.WeakDigest for "weak4"/"const";
   * the IRI of every content hash in every message (base58check with double SHA-256), so that the table
-    also covers hashes the implementation rejected; cross-checked against every IRI the chain reports;
+    also covers hashes the implementation rejected.  These IRIs only select table entries: the model
+    computes every IRI itself (Data/Iri.v) and the evaluator compares it with what the chain reports;
+    an IRI missing from the table shows up as a mismatch (empty digest => CreateID "panics");
   * url_ok of MsgDefineResolver: a port of Go's url.ParseRequestURI, cross-checked against the outcome
     of the implementation (a disagreement puts the trace outside the model domain).
 """
